@@ -813,6 +813,27 @@ fn main() {
     }
     let tmpl = expand(&tmpl, vroot, 0);
     let segs = parse_template(&tmpl);
+    // N30 bookkeeping: constant names the unit already defines (extracted by a directive, or written in the template / a prelude include)
+    let mut declared_consts: std::collections::BTreeSet<String> = Default::default();
+    {
+        fn scan(txt: &str, acc: &mut std::collections::BTreeSet<String>) {
+            for l in txt.lines() {
+                let t = l.trim_start();
+                let t = t.strip_prefix("pub(crate) ").or_else(|| t.strip_prefix("pub ")).unwrap_or(t);
+                if let Some(r) = t.strip_prefix("const ") {
+                    let name: String = r.chars().take_while(|c| c.is_alphanumeric() || *c == '_').collect();
+                    if !name.is_empty() { acc.insert(name); }
+                }
+            }
+        }
+        for (is_dir, raw, dir) in &segs {
+            if *is_dir {
+                if let Some(d) = dir { if let Some(pos) = d.selector.iter().position(|x| x == "const") { if let Some(nm) = d.selector.get(pos + 1) { declared_consts.insert(nm.clone()); } } }
+            } else if let Some(pth) = raw.strip_prefix("\u{1}INCLUDE ") {
+                if let Ok(t) = fs::read_to_string(format!("{vroot}/{pth}")) { scan(&t, &mut declared_consts); }
+            } else { scan(raw, &mut declared_consts); }
+        }
+    }
     let mut out = String::new();
     let mut items_report: Vec<Value> = Vec::new();
     let mut includes: Vec<Value> = Vec::new();
@@ -1054,6 +1075,44 @@ fn main() {
                 (prettyplease::unparse(&file), sp, n.nloops, n.nrets)
             }
         };
+        // N30: module-level constants of the SAME source file that the extracted function names, and that the unit does not define yet, are
+        // extracted with it (a refactor that names a literal must not make the unit fail to compile)
+        let mut auto_consts = String::new();
+        if !d.selector.iter().any(|x| x == "const") {
+            let mut work: Vec<String> = {
+                let mut names: Vec<String> = vec![];
+                let mut cur = String::new();
+                for ch in printed.chars().chain(std::iter::once(' ')) {
+                    if ch.is_alphanumeric() || ch == '_' { cur.push(ch); } else {
+                        if cur.len() > 1 && cur.chars().next().map(|c| c.is_ascii_uppercase()).unwrap_or(false) && cur.chars().all(|c| c.is_ascii_uppercase() || c.is_ascii_digit() || c == '_') { names.push(cur.clone()); }
+                        cur.clear();
+                    }
+                }
+                names
+            };
+            while let Some(nm) = work.pop() {
+                if declared_consts.contains(&nm) { continue; }
+                let hit = file.items.iter().find_map(|it| if let syn::Item::Const(c) = it { if c.ident == nm { Some(c.clone()) } else { None } } else { None });
+                if let Some(mut c) = hit {
+                    declared_consts.insert(nm.clone());
+                    c.attrs.clear();
+                    c.vis = syn::Visibility::Public(Default::default());
+                    let mut it = syn::Item::Const(c);
+                    { let mut f = norm::FoldShl(0); f.visit_item_mut(&mut it); }
+                    let txt = prettyplease::unparse(&syn::File { shebang: None, attrs: vec![], items: vec![it] });
+                    // constants the definition itself names
+                    let mut cur = String::new();
+                    for ch in txt.chars().chain(std::iter::once(' ')) {
+                        if ch.is_alphanumeric() || ch == '_' { cur.push(ch); } else {
+                            if cur.len() > 1 && cur != nm && cur.chars().next().map(|c| c.is_ascii_uppercase()).unwrap_or(false) && cur.chars().all(|c| c.is_ascii_uppercase() || c.is_ascii_digit() || c == '_') { work.push(cur.clone()); }
+                            cur.clear();
+                        }
+                    }
+                    auto_consts.push_str(&txt);
+                    n.rules.push(norm::RuleApp { rule: "N30".into(), line: 0, note: format!("module constant {nm} of the same file extracted with the function") });
+                }
+            }
+        }
         for e in &n.errors {
             problems.push(format!("{} {}: {e}", d.file, d.selector.join(" ")));
         }
@@ -1064,6 +1123,7 @@ fn main() {
                 continue;
             }
         };
+        if !auto_consts.is_empty() { out.push_str(&auto_consts); }
         let l0 = cur_line(&out);
         if !d.attrs.trim().is_empty() && !fn_attrs_done {
             out.push_str(d.attrs.trim_end());
